@@ -163,7 +163,14 @@ class Executor:
         if key not in self._base:
             h = z3.Const('%s@%s' % (name, gen), self.m.heap_sort(name))
             self._base[key] = h
-            if self.heap_is_ref(name):
+            own = False
+            if not self.heap_is_ref(name) and self.heap_iface_impls(name):
+                # heaps of interface values: typed only where the verified function itself (transitively) writes them
+                try:
+                    own = name in self.fn_writes(self.topframe.fn)
+                except Exception:
+                    own = False
+            if self.heap_is_ref(name) or own:
                 bound = self.entry_alloc if gen == 0 else self.gen_alloc.get(gen, self.entry_alloc)
                 ax = self.ref_axiom(name, h, bound)
                 if ax is not None:
@@ -198,10 +205,54 @@ class Executor:
 
     _isref = {}
 
+    def heap_iface_impls(self, name):
+        """for a heap of interface values of a module interface: the pointer types that may be stored in it"""
+        r = self._isiface.get(name)
+        if r is not None:
+            return r
+        parts = name.split('|')
+        res = []
+        try:
+            if parts[3] == 'Any' and parts[0] in ('H', 'A'):
+                T = self.m.uncanon(parts[1])
+                for (p, srt, tk) in self.m.layout(T):
+                    if p == parts[2] and srt == 'Any' and self.m.kind(tk) == 'interface':
+                        t = self.m.types.get(tk) or {}
+                        impls = t.get('impls') or (self.m.types.get(self.m.under(tk)) or {}).get('impls') or []
+                        res = [c for c in impls if c in self.m.any_index and self.m.kind(c) == 'pointer']
+                        sealed = t.get('sealed') or (self.m.types.get(self.m.under(tk)) or {}).get('sealed')
+                        if sealed and all(c in self.m.any_index for c in impls):
+                            # an interface with an unexported method: only the implementers of its package exist
+                            self._sealed_impls[name] = list(impls)
+        except Exception:
+            res = []
+        self._isiface[name] = res
+        return res
+
+    _sealed_impls = {}
+
+    _isiface = {}
+
     def ref_axiom(self, name, heap, bound):
         """well-typedness of a heap of references: every stored ref denotes an object allocated before `bound`"""
         srt = heap.sort()
         r = z3.Int('r!wt')
+        impls = self.heap_iface_impls(name)
+        if impls:
+            if name.startswith('H|'):
+                v = z3.Select(heap, r)
+                bvs = [r]
+            else:
+                i = z3.Int('i!wt')
+                v = z3.Select(z3.Select(heap, r), i)
+                bvs = [r, i]
+            body = []
+            for c in impls:
+                pr = self.m.any_get(c, v)[0]
+                body.append(z3.Implies(self.m.any_is(c, v), z3.And(pr >= 0, pr < bound)))
+            if name in self._sealed_impls:
+                body.append(z3.Or(v == self.m.Any.nil, *[self.m.any_is(c, v) for c in self._sealed_impls[name]]))
+            return forall(bvs, z3.And(*body), patterns=[v])
         if name.startswith('H|'):
             v = z3.Select(heap, r)
             return forall([r], z3.And(v >= 0, v < bound), patterns=[v])
@@ -534,6 +585,14 @@ class Executor:
                 self.external_bound = self.spec.eval_term(contract.external_below.ast, env)
         else:
             self.top_lets = {}
+        # assumed axioms of the package (T3 facts about the ANTLR recogniser, ...)
+        if self.db.axioms:
+            aenv = self.spec.env_for(frame, st, st, None)
+            for cl in self.db.axioms:
+                if getattr(cl, 'pkg', None) not in (None, fn.pkg):
+                    continue
+                st.assume(self.spec.eval_bool(cl.ast, aenv))
+                self.trusted.add('assumed axiom [%s]: %s' % (cl.label, cl.text[:100]))
         frame.entry = st.fork()
         self.entry_state = frame.entry
         self.cover['entry'] = list(st.pc)
@@ -859,7 +918,7 @@ class Executor:
         Expressed as a lambda overlay, so reads at known old refs reduce syntactically."""
         old = st.heap(name)
         new = self.m.fresh(name.replace('|', '_')[:60] + '_' + tag, old.sort())
-        if self.heap_is_ref(name):
+        if self.heap_is_ref(name) or self.heap_iface_impls(name):
             self.pending_ref_axioms.append((name, new))
         if modset is not None:
             r = z3.Int('r!frame')
@@ -1564,6 +1623,11 @@ class Executor:
         ok = m.any_is(at, a)
         got = m.any_get(at, a)
         self.assume_payload_refs(st, at, a)
+        self.assume_closed(st, x)
+        if m.kind(at) == 'pointer' and lib.is_externpure(self, at):
+            # T3: a parse-tree interface never holds a typed nil pointer
+            st.assume(z3.Implies(ok, got[0] != 0))
+            self.trusted.add('T3: interfaces of the parse tree never hold typed nil pointers')
         if ins.get('commaok'):
             zero = m.zero_val(at).leaves
             leaves = [z3.If(ok, g, z) for g, z in zip(got, zero)]
@@ -1571,6 +1635,31 @@ class Executor:
         self.safety(st, frame, 'typeassert', ins, ok, 'failed type assertion')
         v = Val(at, got)
         return v
+
+    def assume_closed(self, st, v):
+        """a value of a `closed` interface is nil or one of the implementers known to the module"""
+        t = self.m.types.get(v.t) or {}
+        nm = (t.get('pkg', '').rsplit('/', 1)[-1] + '.' if t.get('pkg') else '') + t.get('name', '')
+        if nm not in self.db.closed:
+            return
+        a = v.leaves[0]
+        alts = [a == self.m.Any.nil]
+        for c in self.m.any_types:
+            if self.m.implements(c, v.t):
+                alts.append(self.m.any_is(c, a))
+        st.assume(z3.Or(*alts))
+        self.trusted.add('T3: %s is a closed interface' % nm)
+
+    def assume_iface_refs(self, st, v):
+        """an interface value just produced (result of a call): whatever it holds was allocated by now"""
+        for (path, sort, tk), leaf in zip(self.m.layout(v.t), v.leaves):
+            if sort != 'Any' or self.m.kind(tk) != 'interface':
+                continue
+            t = self.m.types.get(tk) or {}
+            impls = t.get('impls') or (self.m.types.get(self.m.under(tk)) or {}).get('impls') or []
+            for c in impls:
+                if c in self.m.any_index:
+                    self.assume_payload_refs(st, c, leaf)
 
     def assume_payload_refs(self, st, c, a):
         """every reference stored inside an existing interface value denotes an allocated object"""
@@ -2042,6 +2131,7 @@ class Executor:
         for r in f2.results:
             v = self.m.fresh_val(r['t'], 'r_' + f2.short)
             self.assume_refs(st, v)
+            self.assume_iface_refs(st, v)
             self.type_invariant(st, v)
             results.append(v)
         env2 = self.spec.env_for(callee_frame, st, pre, results)
@@ -2243,7 +2333,31 @@ class Executor:
                             'precondition of ' + name)
                 st.assume(t)
         pre = st.fork()
-        res = lib.opaque_result(self, st, ins, name)
+        if c.modifies:
+            # an ASSUMED frame of external code (e.g. a callback registered earlier runs during the call)
+            mod = []
+            for cl in c.modifies:
+                mod.extend(self.spec.lvalue_locs(cl.ast, env))
+            entry_alloc = st.alloc
+            for (n, r) in mod:
+                if r is not None and not isinstance(r, PredLoc):
+                    self.frame_check(st, frame, n, r)
+                elif self.modset is not None and not any((mn == n or mn == '*') and mr is None for (mn, mr) in self.modset):
+                    self.oblige(st, frame, 'frame', 'call:%s:%s' % (name, n[-30:]), z3.BoolVal(False), self.frame_props,
+                                ins.get('line', 0), 'external code may write a whole heap the caller may not')
+            for n in sorted({n for (n, r) in mod}):
+                self.havoc_heap(st, n, 'call', entry_alloc, mod)
+                self.written.add(n)
+            na = self.m.fresh('alloc_x', self.m.Int)
+            st.assume(na >= st.alloc)
+            st.alloc = na
+            self.flush_ref_axioms(st)
+        if name.startswith('invoke:') and args and lib.is_externpure(self, args[0].t):
+            res = lib.pure_value(self, st, ins.get('t'), 'ext_invoke_%s.%s' % (args[0].t.rsplit('/', 1)[-1], name.rsplit('.', 1)[-1]), args)
+        elif lib.is_externpure(self, getattr(self, '_extern_full', name)):
+            res = lib.pure_value(self, st, ins.get('t'), 'ext_' + name, args)
+        else:
+            res = lib.opaque_result(self, st, ins, name)
         if res is None:
             results = []
         elif isinstance(res.py, list):
